@@ -326,3 +326,26 @@ def _cmp(rec, name, x, y, L, three_d, sig, prefix, rtol):
 
     mag = max(_m(ax), _m(ay), floor)
     rec.close(prefix + "equal", ax, ay, rtol * mag, s2)
+
+
+def dtype_twin(rec, ctor, V, rest, sig, three_d, with_queries=False, skip=()):
+    """Metamorphic relation over the argument's dtype: the coordinates rounded to single precision are handed over once as
+    a float32 array and once as a float64 array holding exactly the same values.  Both are the same mathematical input,
+    so either both constructions are refused (with the same exception type) or every observable agrees to double
+    precision.  Nothing is assumed about the rounded geometry being valid, so this cannot raise a false alarm."""
+    V32 = np.asarray(V, dtype=float).astype(np.float32)
+    if not np.all(np.isfinite(V32)):
+        return
+    V64 = V32.astype(np.float64)
+    A, B = call(ctor, V32, *rest), call(ctor, V64, *rest)
+    s2 = dict(sig, twin="float32_vs_float64")
+    rec.label("dtype_twin")
+    if isinstance(A, Raised) or isinstance(B, Raised):
+        ta = A.type if isinstance(A, Raised) else "accepted"
+        tb = B.type if isinstance(B, Raised) else "accepted"
+        rec.check(ta == tb, "dtype_twin_construct", dict(s2, float32=ta, float64=tb), a=repr(A)[:120], b=repr(B)[:120])
+        return
+    L = float(np.max(np.linalg.norm(V64, axis=1))) or 1.0
+    a = canonical(observe(A, with_queries=with_queries, skip=skip))
+    b = canonical(observe(B, with_queries=with_queries, skip=skip))
+    compare(rec, a, b, L, three_d, s2, "dtype_twin_", rtol=1e-11)
